@@ -39,10 +39,16 @@ def as_count(x):
     return int(r) if abs(x - r) < 1e-9 else -7777
 
 
+_FLAVOUR = [0]
+
+
 def observe_intersect(cat, coarse, g, s, fxll, fyll, filled):
     with warnings.catch_warnings():
         warnings.simplefilter("ignore")
-        ag, cells, w = cat.intersect(coarse, filled=filled)
+        # the flag in the flavours a caller may hold it in (Python bool, numpy bool from a comparison, integer)
+        _FLAVOUR[0] += 1
+        flag = [bool(filled), np.bool_(filled), int(filled), np.array([1.0])[0] > (0.0 if filled else 2.0)][_FLAVOUR[0] % 4]
+        ag, cells, w = cat.intersect(coarse, filled=flag)
     q = s / 4.0
     rho2 = (g["cs"] / 4.0) ** 2
     out = {"out_cells": [int(c) for c in cells], "out_counts": [as_count(x * rho2) for x in w]}
@@ -141,17 +147,22 @@ def code_to_spec(ctx, gridmod, n):
         s, fxll, fyll = geometry(int(rng.integers(0, 1000)))
         q = s / 4.0
         # a real delineation on a mostly convergent flow grid
-        fd = [int(rng.choice([1, 2, 4, 4, 2, 8, 16])) for _ in range(fr * fc)]
+        fd = [int(rng.choice([1, 2, 4, 4, 2, 8, 16] + ([0, 0, 64] if t % 2 else []))) for _ in range(fr * fc)]      # sinks leave holes in the area
+        hole = (t % 4 == 1 and fr >= 3 and fc >= 3)
+        if hole:
+            # everything drains east then south to the bottom-right cell, except one interior sink: the area has a one-cell hole
+            hr, hc = int(rng.integers(1, fr - 1)), int(rng.integers(1, fc - 1))
+            fd = [0 if (r, c) == (hr, hc) else 4 if (c == fc - 1 or (r == hr and c < hc)) else 1 for r in range(fr) for c in range(fc)]
         flow = make_grid(gridmod.Grid, fr, fc, fd)
         flow.cellsize = np.float64(s)
         flow.xllcorner, flow.yllcorner = np.float64(fxll), np.float64(fyll)
         cat = gridmod.Catchment("c", flow)
-        o = int(rng.integers(0, fr * fc))
+        o = fr * fc - 1 if hole else int(rng.integers(0, fr * fc))
         try:
             cat.delineate_area(o, nval=fr * fc + 2)
         except ValueError:
             continue
-        filled = bool(rng.random() < 0.5)
+        filled = bool(rng.random() < 0.5) or hole
         cells = [int(c) for c in (cat.idxcells_area_filled if filled else cat.idxcells_area)]
         if not cells:
             continue
